@@ -642,6 +642,76 @@ def replay_binary_ord(a):
 
 
 # --------------------------------------------------------------------------------------------------
+# the evaluation record tree: RecordTracker::start_record / end_record (stack discipline, well-nesting)
+# --------------------------------------------------------------------------------------------------
+TRACER_IMPL = r"(?:rules::)?eval_context::<impl at guard/src/rules/eval_context\.rs:\d+:\d+: \d+:\d+>::"
+
+
+def record_tracker(a):
+    ER = struct_fields(a.src, "rules/eval_context.rs", "EventRecord")
+    RT_ = struct_fields(a.src, "rules/eval_context.rs", "RecordTracker")
+    # ---- end_record
+    ex = a.exec(TRACER_IMPL + "end_record", {"pop": mirexec.m_option, "last_mut": mirexec.m_option,
+                                             "ne": lambda ex, av: ("bool", ex.fresh("Bool", "ctx_differs")),
+                                             "eq": lambda ex, av: ("bool", f"(not {ex.fresh('Bool', 'ctx_differs')})")},
+                log=("push", "replace"), unroll=1, max_paths=2000, first_arg_re=r"_1: &mut (?:eval_context::)?RecordTracker")
+    a.fns.append("rules::eval_context::RecordTracker::end_record")
+    me, record = ex.arg_env["_1"], ex.arg_env["_3"]
+    events = field(ex, me, RT_.index("events"), "Vec")
+    final = field(ex, me, RT_.index("final_event"), "Option")
+    bad = []
+    for p in ex.paths:
+        r = p.ret
+        pops, lasts = calls(p, "pop"), calls(p, "last_mut")
+        pushes = [e for e in calls(p, "push") if len(e[2]) == 2]
+        repl = calls(p, "replace")
+        if p.outcome != "return" or not r or r[0] != "enum" or len(pops) != 1 or not same_v(pops[0][2][0], events):
+            bad.append(pc_term(p.pc))
+            continue
+        had = f"(= {pops[0][3][2]} 1)"
+        ev = pops[0][3][3].get("Some")
+        differs = [e[3][1] for e in calls(p, "ne")] + [f"(not {e[3][1]})" for e in calls(p, "eq")]
+        mism = differs[0] if differs else "false"
+        if r[2] == "1":
+            good = f"(or (not {had}) {mism})" if not (pushes or repl) else "false"
+        else:
+            stores = p.env.get("$stores") or {}
+            cont = stores.get((ev[1], f".{ER.index('container')}")) if ev and ev[0] == "opaque" else None
+            cont_ok = cont is not None and cont[0] == "enum" and cont[1] == "Option" and cont[2] == "1" and same_v(cont[3].get("Some"), record)
+            attach_parent = (len(lasts) == 1 and same_v(lasts[0][2][0], events) and len(pushes) == 1 and not repl
+                             and same_v(pushes[0][2][1], ev)
+                             and same_v(pushes[0][2][0], field(ex, lasts[0][3][3].get("Some"), ER.index("children"), "Vec")))
+            attach_root = (len(lasts) == 1 and not pushes and len(repl) == 1 and same_v(repl[0][2][0], final) and same_v(repl[0][2][1], ev))
+            if cont_ok and attach_parent:
+                good = f"(and {had} (not {mism}) (= {lasts[0][3][2]} 1))"
+            elif cont_ok and attach_root:
+                good = f"(and {had} (not {mism}) (= {lasts[0][3][2]} 0))"
+            else:
+                good = "false"
+        bad.append(f"(and {pc_term(p.pc)} (not {good}))")
+    a.discharge("RecordTracker::end_record/well-nested", ex, bad,
+                "closing a record: an error if nothing is open or the innermost open record has another context (nothing is attached then); "
+                "otherwise the innermost open record receives exactly the given container and is attached as the LAST child of the next "
+                "open record, or becomes the root when none is open")
+    # ---- start_record
+    ex = a.exec(TRACER_IMPL + "start_record", {"to_string": mirexec.m_identity}, log=("push",), unroll=1, max_paths=200,
+                first_arg_re=r"_1: &mut (?:eval_context::)?RecordTracker")
+    a.fns.append("rules::eval_context::RecordTracker::start_record")
+    me, ctx = ex.arg_env["_1"], ex.arg_env["_2"]
+    events = field(ex, me, RT_.index("events"), "Vec")
+    bad = []
+    for p in ex.paths:
+        pushes = [e for e in calls(p, "push") if len(e[2]) == 2]
+        r = p.ret
+        ok = (p.outcome == "return" and r and r[0] == "enum" and r[2] == "0" and len(pushes) == 1 and same_v(pushes[0][2][0], events)
+              and pushes[0][2][1][0] == "struct" and same_v(pushes[0][2][1][2].get("context"), ctx)
+              and pushes[0][2][1][2].get("container", ("",))[0] == "enum" and pushes[0][2][1][2]["container"][2] == "0")
+        bad.append("false" if ok else pc_term(p.pc))
+    a.discharge("RecordTracker::start_record/opens", ex, bad,
+                "opening a record pushes one open record with the given context, no container yet, and always succeeds", witness=False)
+
+
+# --------------------------------------------------------------------------------------------------
 # operator layer kernels: match_value (outcome classification) and CommonOperator::compare (every pair, in order)
 # --------------------------------------------------------------------------------------------------
 def match_value(a):
@@ -825,10 +895,137 @@ def function_dispatch(a):
                     "out-of-bounds argument access for a call with one argument", witness=False)
 
 
+# --------------------------------------------------------------------------------------------------
+# element-wise built-ins: one result per argument value, built only from that value (and the fixed arguments)
+# --------------------------------------------------------------------------------------------------
+ELEMENTWISE = ["url_decode", "json_parse", "regex_replace", "substring", "to_upper", "to_lower", "parse_float", "parse_int", "parse_bool",
+               "parse_str", "parse_char", "parse_epoch"]
+
+
+def _flat_ids(v, out):
+    if v is None:
+        return
+    if v[0] == "opaque":
+        out.append(v[1])
+    elif v[0] == "tuple":
+        for x in v[1]:
+            _flat_ids(x, out)
+    elif v[0] == "struct":
+        for x in v[2].values():
+            _flat_ids(x, out)
+    elif v[0] == "variant":
+        for x in v[3]:
+            _flat_ids(x, out)
+    elif v[0] == "enum":
+        for x in v[3].values():
+            _flat_ids(x, out)
+
+
+def elementwise(a):
+    for fname in ELEMENTWISE:
+        try:
+            ex = a.exec(r"(?:(?:rules::functions::)?(?:strings|converters|date_time)::)?" + fname,
+                        {"next": mirexec.m_iter_next, "iter": mirexec.m_new_iter, "into_iter": mirexec.m_new_iter,
+                         "with_capacity": lambda ex, av: ex.opq(), "branch": mirexec.m_try_branch, "from_residual": mirexec.m_from_residual},
+                        log=("*",), unroll=2, max_paths=60000,
+                        first_arg_re=r"_1: &\[(?:rules::)?QueryResult\]")
+        except Untranslatable as e:
+            a.ob.items.append({"obligation": f"functions/{fname}/element-wise", "describe": str(e), "verdicts": {}, "status": "inconclusive",
+                               "model": None})
+            continue
+        a.fns.append(f"rules::functions::{fname}")
+        args = ex.arg_env["_1"]
+        fixed = {v[1] for k, v in ex.arg_env.items() if k != "_1" and v[0] == "opaque"}
+        rev = {}
+        for k, v in ex.proj.items():
+            if isinstance(k, tuple) and len(k) == 2 and isinstance(k[0], int) and isinstance(v, tuple) and v and v[0] == "opaque":
+                rev.setdefault(v[1], k[0])
+
+        def rooted(i, roots, depth=0):
+            """the value, or something it is a field / payload / element of, is one of `roots`"""
+            while i is not None and depth < 50:
+                if i in roots:
+                    return True
+                i = rev.get(i)
+                depth += 1
+            return False
+        bad, nel = [], 0
+        for p in ex.paths:
+            r = p.ret
+            if p.outcome == "panic":
+                bad.append(pc_term(p.pc))
+                continue
+            if not r or r[0] != "enum" or r[1] != "Result":
+                bad.append(pc_term(p.pc))
+                continue
+            okv = r[3].get("Ok")
+            its = iterations(ex, p, it_filter=lambda ev: ex.iter_src.get(ev[2][0][1], ev[2][0]) == args)
+            bounds = [i for _k, _e, _t, i in its] + [len(p.events)]
+            pre = bounds[0] if its else len(p.events)
+            probs, counts = [], []
+            for n, (k, el, tag, i0) in enumerate(its):
+                seg = [(i, e) for i, e in enumerate(p.events) if bounds[n] <= i < bounds[n + 1] and e[0] == "call"]
+                pushes = [e for i, e in seg if e[1] == "push" and len(e[2]) == 2 and okv is not None and (e[2][0] == okv or r[2] == "1")]
+                pushes = [e for e in pushes if okv is None or e[2][0] == okv] if okv is not None else pushes
+                if el is None:
+                    continue
+                nel += 1
+                counts.append((tag, len(pushes)))
+                for e in pushes:
+                    ids = []
+                    _flat_ids(e[2][1], ids)
+                    roots = fixed | ({el[1]} if el[0] == "opaque" else set())
+                    for i_ in ids:
+                        top = i_
+                        for _d in range(50):
+                            if rev.get(top) is None:
+                                break
+                            top = rev[top]
+                        # built from this value / the fixed arguments, or an object that came into being while handling this value
+                        if not (rooted(i_, roots) or ex.created.get(top, -1) >= bounds[n]):
+                            probs.append(f"the result for argument value {k} contains a value that was not built from it in this iteration")
+            # one result per visited value unless the run ended with an error
+            cnt = "(and true " + " ".join(f"(=> (= {t} 1) {'true' if c == 1 else 'false'})" for t, c in counts) + ")"
+            n_it = "(+ 0 0 " + " ".join(f"(ite (= {t} 1) 1 0)" for _k, _e, t, _i in its) + ")"
+            good = f"(or (= {r[2]} 1) (and {cnt} (= {n_it} {ex.len_of(args)})))"
+            bad.append(f"(and {pc_term(p.pc)} (not {'false' if probs else good}))")
+        c = a.discharge(f"functions/{fname}/element-wise", ex, bad,
+                        f"{fname} over an argument list of <= 2 values ({nel} element visits): every value is visited, exactly one result "
+                        "(a value or `skipped`) is appended per value, in order, and a result is built only from that value, the function's "
+                        "other arguments and objects created while handling that value - no state is carried from one value to the next; no "
+                        "panic")
+        if c:
+            c["replay"] = replay_elementwise(a)
+            c["reproduced"] = c["replay"].get("reproduced", False)
+            a.candidates.append(c)
+
+
+def replay_elementwise(a):
+    """each element-wise built-in on a two-element selection (and a mixed selection with a non-string): the i-th result
+    is the documented function of the i-th value alone"""
+    exe = a.cli()
+    if not exe:
+        return {"reproduced": False, "note": "native build failed"}
+    data = ('{"S": ["ab", "cd"],\n "U": ["a%20b", "c%2Fd"], "N": ["12", "34"], "F": ["1.5", "2.5"], "B": ["true", "false"], "C": ["x", "y"],\n'
+            ' "J": ["{\\"k\\": 1}", "{\\"k\\": 2}"], "M": ["ab", 5, "cd"], "I": [12, 34]}\n')
+    rules = ("let up = to_upper(S[*])\nlet lo = to_lower(%up)\nlet ud = url_decode(U[*])\nlet pi = parse_int(N[*])\nlet pf = parse_float(F[*])\n"
+             "let pb = parse_boolean(B[*])\nlet pc = parse_char(C[*])\nlet ps = parse_string(I[*])\nlet rr = regex_replace(S[*], \"^(.)(.)$\", \"${2}${1}\")\n"
+             "let sb = substring(S[*], 0, 1)\nlet jp = json_parse(J[*])\nlet mu = to_upper(M[*])\n")
+    # a variable's result set cannot be indexed (`%v[0]` indexes INTO each value), so each result set is pinned down by
+    # "every result is one of the expected values" + "each expected value occurs"
+    def both(var, v1, v2):
+        return [(f"%{var} in [{v1}, {v2}]", "PASS"), (f"some %{var} == {v1}", "PASS"), (f"some %{var} == {v2}", "PASS")]
+    cases = (both("up", '"AB"', '"CD"') + both("lo", '"ab"', '"cd"') + both("ud", '"a b"', '"c/d"') + both("pi", "12", "34")
+             + both("pf", "1.5", "2.5") + both("pb", "true", "false") + both("ps", '"12"', '"34"') + both("rr", '"ba"', '"dc"')
+             + both("sb", '"a"', '"c"') + both("mu", '"AB"', '"CD"')
+             + [("%jp.k in [1, 2]", "PASS"), ("some %jp.k == 1", "PASS"), ("some %jp.k == 2", "PASS"), ("%pc exists", "PASS")])
+    return a.replay_cases(exe, data, cases, prefix=rules)
+
+
 SITES = {
     "C01": [guard_block, type_block, binary_operation, operator_dispatch, match_value, common_operator],
-    "C02": [guard_block, type_block],
+    "C02": [guard_block, type_block, record_tracker],
     "C03": [flip_closure, negated_compare_wrapper],
     "C13": [flip_closure, operator_dispatch, binary_operation, match_value, common_operator],
-    "C18": [function_dispatch],
+    "C18": [function_dispatch, elementwise],
 }
